@@ -5,6 +5,21 @@ DEPS = ("Trusted base: rustc 1.97 nightly (type checker, const evaluator, match 
         "serde_bytes 0.11.19, cosey 0.3.2, iso7816 0.1.4 for value-level encoding/decoding. ")
 
 CLAIMS = {
+    "C13": {
+        "level": "other",
+        "technique": "static wiring table + path-literal analysis of the wrapper decoders + a semantic template for floor_char_boundary/truncate with slots extracted from typed HIR and side conditions evaluated on the slot values (boundary byte set expanded from the predicate's AST over 256 bytes)",
+        "text": "Decides the wiring (which member uses which lossy decoder with which capacity), the exact keep/drop condition of the icon decoder, and every structural parameter the longest-prefix argument depends on "
+                "(inclusive window of >= 4 positions ending at the cut, last match, result arithmetic, boundary byte set, truncate's own L, prefix pushed into a fresh String<L>), and that no other panic-capable construct exists in these functions. "
+                "The for-all-strings conclusion is the paper argument over these slots (DESIGN.md), not an exploration.",
+        "note": DEPS + "Input text is valid UTF-8 when it reaches these functions (serde &str decoding); the paper argument uses: <= 3 consecutive continuation bytes, text starts on a boundary.",
+    },
+    "C14": {
+        "level": "other",
+        "technique": "static error-discipline / who-may-call / path-literal rules on the two hand-written filtering visit_seq loops and on the known-parameter conversion; constants and capacities from rustc's evaluated tables",
+        "text": "Decides that the only failure of either list decoder is a CBOR fault in next_element, that unknown entries continue / set the flag, that known entries are appended in input order by push with its Result discarded (first N by capacity), "
+                "that the accepted set is exactly {type == \"public-key\", alg in {-7,-8}} / {\"none\",\"packed\"}, and that the capacities equal the number of known values. This fixes the filters' input/output relation for every list.",
+        "note": DEPS + "Relative to heapless Vec::push and cbor-smol's SeqAccess.",
+    },
     "C07": {
         "level": "other",
         "technique": "static ordered-append analysis: exhaustive path enumeration of the two serializers from typed HIR, per-path append sequence vs the WebAuthn layout, who-may-call on the buffer, Result-propagation (error discipline) on every append",
